@@ -29,12 +29,10 @@ Results:
   `N` running workers, status still `active`; `C01_converged_stays` — any number of further checks
   keeps it there (each completes within its step).
 
-What generalising would need: several registered watchers run their `manage_processes` under one
-`gen.multi`, each parks on its own timer, and `wake` fires the earliest — `Parked` would describe a
-set of parked loops and the count of firings would be the sum of the missing workers (the lemmas
-per loop, `spawnLoop_dat` / `manageProcesses_dat`, are already stated for arbitrary frames and
-waiters); hooks would add their events but no control flow as long as they return true; deaths
-during the convergence are excluded by `Still` (they are C01's other clauses).
+Generalisations — deaths before the check, a surplus of workers, several watchers — are in Props/C01Conv2.lean
+(Core/ConvReap.lean, Core/ConvSurplus.lean, Core/ConvMulti.lean); Core/Conv.lean proves the lemmas here in a
+pid-tracking form (`DatL`) and after an arbitrary `Arbiter.reap_processes` (`check_parks_gen`, `check_done_gen`).
+Still excluded by `Still`: deaths *during* the convergence (C01's other clauses, checked by the oracle).
 -/
 namespace Circus.Core
 
